@@ -2332,3 +2332,87 @@ func ruleCacheLatest(c *Ctx) {
 	}
 	c.Floor("storage lookups that fill the RoleManagement cache", n, 1)
 }
+
+// ---------------------------------------------------------------------------
+// witness-covered-shortcut (C06): the hash of a header does not cover its witness, the hash of a transaction does not
+// cover its witnesses. Blockchain.AddBlock has two shortcuts keyed by a hash: when the header of the block is known
+// already it only compares the block hash with the known one, and a transaction that is in the node's pool is put
+// into the scratch pool without verification. Both skip the witness check on the strength of a value that says
+// nothing about the witness: the same block (transaction) with any other witness has the same hash, is accepted and
+// is what gets stored. A shortcut keyed by a hash has to look at the witness it is about to store - compare it with
+// the verified copy, or verify it.
+func ruleWitnessCoveredShortcut(c *Ctx) {
+	fd := c.P.Func("pkg/core", "Blockchain", "AddBlock")
+	if fd == nil {
+		c.Lost("witness-covered-shortcut.anchor", "Blockchain.AddBlock not found")
+		return
+	}
+	f := c.P.NewFuncCFG(fd)
+	store := f.CallSites(symStoreBlock)
+	if len(store) == 0 {
+		c.Lost("witness-covered-shortcut.storeBlock", "AddBlock no longer calls storeBlock")
+		return
+	}
+	// (1) the known-header branch: the if statement comparing the block index with HeaderHeight()+1
+	var hdrIf *ast.IfStmt
+	ast.Inspect(fd.Decl.Body, func(x ast.Node) bool {
+		if is, ok := x.(*ast.IfStmt); ok && hdrIf == nil && is.Else != nil {
+			m := f.DirectMentions(is.Cond)
+			if (m["pkg/core.(*Blockchain).HeaderHeight"] || m["pkg/core.(*HeaderHashes).HeaderHeight"]) && m[fldBlockIndex] {
+				hdrIf = is
+			}
+		}
+		return true
+	})
+	if hdrIf == nil {
+		c.Lost("witness-covered-shortcut.known-header.anchor", "the branch on `block.Index == HeaderHeight()+1` was not found in AddBlock")
+	} else {
+		looks := false
+		ast.Inspect(hdrIf.Else, func(x ast.Node) bool {
+			switch y := x.(type) {
+			case *ast.SelectorExpr:
+				if v, ok := f.Info.ObjectOf(y.Sel).(*types.Var); ok && v.IsField() && symOf(v) == "pkg/core/block#Script" {
+					looks = true
+				}
+			case *ast.CallExpr:
+				if cs := f.calleeSym(y); cs == symBC+"verifyHeaderWitnesses" || cs == symBC+"verifyHeader" || cs == symBC+"addHeaders" {
+					looks = true
+				}
+			}
+			return true
+		})
+		if looks {
+			c.OK("witness-covered-shortcut.known-header", c.P.Pos(hdrIf.Else.Pos()), "the known-header branch looks at the block's witness (compares or verifies it)")
+		} else {
+			c.Fail("witness-covered-shortcut.known-header", c.P.Pos(hdrIf.Else.Pos()), "Blockchain.AddBlock: when the header of the block is already known only the block hash is compared with the known one; the hash does not cover the witness, so a copy of the block with any other witness (unsigned, `PUSH1`) is accepted and StoreAsBlock overwrites the verified header with it")
+		}
+	}
+	// (2) the pooled-transaction shortcut: the branch on memPool.ContainsKey
+	var poolIf *ast.IfStmt
+	ast.Inspect(fd.Decl.Body, func(x ast.Node) bool {
+		if is, ok := x.(*ast.IfStmt); ok && poolIf == nil {
+			if f.DirectMentions(is.Cond)["pkg/core/mempool.(*Pool).ContainsKey"] {
+				poolIf = is
+			}
+		}
+		return true
+	})
+	if poolIf == nil {
+		c.OK("witness-covered-shortcut.pooled-tx", c.P.Pos(fd.Decl.Pos()), "AddBlock has no shortcut for pooled transactions")
+	} else {
+		looks := false
+		ast.Inspect(poolIf, func(x ast.Node) bool {
+			if se, ok := x.(*ast.SelectorExpr); ok && x != ast.Node(poolIf.Else) {
+				if v, ok := f.Info.ObjectOf(se.Sel).(*types.Var); ok && v.IsField() && symOf(v) == "pkg/core/transaction#Scripts" {
+					looks = true
+				}
+			}
+			return true
+		})
+		if looks {
+			c.OK("witness-covered-shortcut.pooled-tx", c.P.Pos(poolIf.Pos()), "the pooled-transaction shortcut looks at the witnesses of the block's copy")
+		} else {
+			c.Fail("witness-covered-shortcut.pooled-tx", c.P.Pos(poolIf.Pos()), "Blockchain.AddBlock skips the verification of a transaction whose hash is in the node's pool; the hash does not cover the witnesses, so a relayed copy of a valid block in which a pooled transaction's witness was replaced is accepted (block hash and Merkle root are unchanged) and the garbage witness is stored")
+		}
+	}
+}
